@@ -82,6 +82,20 @@ CHECKS["C11"] = dict(
     technique="TLC model checking of the index/seek design + replay of its whole state space into the C code + TLC trace validation against the contract",
 )
 
+CHECKS["C12"] = dict(
+    category="model_checking",
+    text="JlsTs.tla (UTC configuration) checks that the level-1 seek + skip of jls_core_utc delivers exactly the pairs at or after the id for all strictly "
+         "increasing id sequences of <= 11 entries, D = 2, 3; TmapMC.tla checks, for all maps of <= 6 anchors and all queries, that interp_i64's binary "
+         "search (transcribed with its array reads) picks the segment the contract prescribes and stays inside the table. Programs with 0..2500 UTC entries "
+         "(decimation 10/15/100/default, offsets, rates 2^20..2^30 and 10^9 Hz, irregular spacing, drift) are run on the real library; jls_rd_utc from "
+         "ids before/at/between/after (also stopped) and id->time / time->id conversions (anchors exact, within one tick of the linear value on the "
+         "prescribed segment, single-entry rate extrapolation, monotone across all queries of an execution, inverse within one sample) are judged by "
+         "TLC with Tmap.tla in cross-multiplied integer arithmetic.",
+    design_ref="DESIGN.md section 6 C12, section 12",
+    note="Trusted: as C01. Ids/times are kept within 32-bit range relative to per-signal bases. Conversions are judged only for strictly increasing times.",
+    technique="TLC model checking of seek and binary-search transcriptions + TLC trace validation against an integer-arithmetic contract",
+)
+
 NOT_YET = {}
 
 
